@@ -166,6 +166,7 @@ fn dispatch_inner(prop: &str, ctx: Ctx, replay: Option<&str>) -> i32 {
         "C03" => {
             let mut rep = Report::new("C03");
             c03::run(ctx, &mut rep);
+            c03::run_in_session(ctx, &mut rep);
             if ctx.tier == crate::report::Tier::Thorough && std::env::var("VERIF_SKIP_MIRI").is_err() {
                 miri_step(&mut rep, "c03");
             }
